@@ -40,6 +40,12 @@ def check(repo, col, tier):
     taint(repo, col, "R-C06-taint")
     _rng(repo, col)
     _scan(repo, col)
+    # the number of time points returned, and the state returned with them, do not depend on the checkpoint layout
+    # (shared with C07)
+    from . import c07
+    col.rule("R-C06-stepcount", "steps behind the returned state == steps returned, with and without checkpointing", 2)
+    ig_ = repo.func(IG, "integrate")
+    c07._stepcount(repo, col, ig_, idx.expander(repo, ig_), "R-C06-stepcount")
 
 
 def _pure(repo, col):
